@@ -895,11 +895,15 @@ def _step_values(I, cfg, index, node=None):
     met = cfg.attrs.get("met") if isinstance(cfg, Opaque) else None
     if not isinstance(met, Opaque):
         return None
+    saved_depth = I.depth
+    I.depth = 0  # (the stub stands where the callee's own call stack would begin)
     try:
         f = I.getattr(met, "get_step", node)
         step = I.call(f, [index], {}, node, {})
     except AnalysisError:
         return None
+    finally:
+        I.depth = saved_depth
     if not (isinstance(step, Tup) and step.kind == "dict"):
         return None
     out = []
